@@ -402,7 +402,7 @@ RULES['C15'] = ('grammar programs with every mark kind, decorated with naming va
 # C16
 # ----------------------------------------------------------------------------------------------
 
-DEFECTS = ['generic_twin', 'not_a_class', 'no_base', 'no_process', 'unannotated_param', 'no_annotations', 'generic_unbound',
+DEFECTS = ['generic_twin', 'not_a_class', 'no_base', 'no_process', 'unannotated_param', 'unannotated_kwonly_param', 'no_annotations', 'generic_unbound',
            'dest_no_protocol', 'start_no_additional_data']
 
 
@@ -447,6 +447,11 @@ def inject(prog, nid, defect):
         if not (n.get('params') or n.get('plain_params') or n.get('start_of')):
             return None     # no annotation at all: covered by 'no_annotations'
         n['unannotated_params'] = ['zz']
+        return p, 'UndefinedParamAnnotation'
+    if defect == 'unannotated_kwonly_param':
+        if not (n.get('params') or n.get('plain_params') or n.get('start_of')):
+            return None
+        n['unannotated_kwonly'] = ['zk']
         return p, 'UndefinedParamAnnotation'
     if defect == 'no_annotations':
         if n.get('params') or n.get('plain_params') or n.get('start_of'):
@@ -602,6 +607,31 @@ def work_c16(prop, tier, seed, widx, nworkers):
             if len(acc.samples) < 1:
                 acc.samples.append({'defect': d, 'at': nid, 'via': case['via'], 'expected_error': exp,
                                     'source_tail': materialize.render(p)[-900:]})
+    # the INPUT node is the start node of a recurrent subgraph: valid, and every defect on it is still rejected
+    for mode in ('async', 'thread'):
+        def N(i, **kw):
+            d = {'id': i, 'mode': mode, 'params': [], 'kind': 'plain', 'plan': {}}
+            d.update(kw)
+            return d
+        base = {'nodes': {'N0': N('N0', plain_params=['x'], start_of=True), 'N2': N('N2', params=[['a', ['in', 'N0']]]),
+                          'N3': N('N3', params=[['a', ['in', 'N2']]], kind='dest', recurrent=True, plan={'start': 'N0', 'want_iter': 0}),
+                          'N1': N('N1', params=[['a', ['rec', 'N0', 'N3', 2]]])},
+                'order': ['N0', 'N2', 'N3', 'N1'], 'input': 'N0', 'output': 'N1', 'tags': []}
+        case = {'prog': base, 'what': 'c16', 'expect': None}
+        fs = _c16_one(case)
+        acc.evaluations += 1
+        _collect(acc, prop, fs, case, base)
+        for nid in ('N0', 'N3'):
+            for d in DEFECTS:
+                r = inject(base, nid, d)
+                if r is None:
+                    continue
+                p1, exp = r
+                case = {'prog': p1, 'what': 'c16', 'expect': exp, 'defect': d, 'at': nid, 'via': ['input_is_start']}
+                fs = _c16_one(case)
+                acc.evaluations += 1
+                acc.counters['input_start_defects'] = acc.counters.get('input_start_defects', 0) + 1
+                _collect(acc, prop, fs, case, p1)
     # single-node pipelines (the input node is the output node): the same defects must be rejected there too
     for mode in ('async', 'thread', 'inline'):
         single = {'nodes': {'N0': {'id': 'N0', 'mode': mode, 'params': [], 'kind': 'plain', 'plan': {}, 'plain_params': ['x']}},
